@@ -4,7 +4,7 @@ from .common import generic_run, FinalDbMonitor, launched_instances
 PID = 'C09'
 ENGINE = 'E1'
 LEVEL = 'exploration'
-RULE = ('One case = generated workflow with retries + failing/vanishing jobs + schedules where messages of one job may overtake each other, be duplicated, delayed past the next submission, dropped and recovered by (possibly stale) polls. Every status change and every output completion of every task proxy is checked. Distinct = distinct (program, schedule digest); non-trivial = at least one retry or out-of-order delivery happened.')
+RULE = ('One case = generated workflow with retries + failing/vanishing jobs + schedules where messages of one job may overtake each other, be duplicated, delayed past the next submission, dropped and recovered by (possibly stale) polls; a third of the cases reload the unchanged definition mid-run. Every status change and every output completion of every task proxy is checked. Distinct = distinct (program, schedule digest); non-trivial = at least one retry or out-of-order delivery happened.')
 ASSUMPTIONS = [
     'jobs, polls, submissions, message transport and the clock are simulated',
     'reference model / invariants cover the generated workflow sub-language',
@@ -28,7 +28,18 @@ def run(params):
     p = dict(params)
     if params['seed'] % 2:
         p['rates'] = RATES
-    r = generic_run(PID, p, knobs=KNOBS, policy='any',
+    mons = []
+    if params['seed'] % 3 == 0:
+        # a third of the cases: a reload of the unchanged definition in the
+        # middle of the run (every proxy is replaced by a successor, which
+        # must carry status and outputs over)
+        import random
+        from ..core import derive_seed
+        from ..e1 import CommandDriver
+        r_ = random.Random(derive_seed(params['seed'], 'c09-reload'))
+        mons = [CommandDriver([{'iter': r_.randint(2, 30), 'slot': 0,
+                                'name': 'reload_workflow', 'kwargs': {}}])]
+    r = generic_run(PID, p, knobs=KNOBS, policy='any', monitors=mons,
                     plan_kw={'p_fail': 0.5, 'p_vanish': 0.15},
                     world_cfg={'intra_job_reorder': bool(params['seed'] % 2)})
     st = r.get('stats') or {}
